@@ -1,14 +1,11 @@
 (* Props/C10.v — the single sequencer's batch queue is a durable FIFO with exactly-once delivery.
    Statements only; every proof is [exact <lemma of Proofs/QueueProofs.v>].
+   The model is the code AFTER the repair of the key scheme (fix recorded in findings/C10.entries.json).
 
-   Histories: lists over  IOp (OSubmit chain_id_ok batch) | IOp (ONext chain_id_ok) | IRestart |
-   ICrash op n  (the process dies inside op after n of its datastore writes became durable, then restarts);
-   a submitted batch is SNil | SEmpty | SB key contents, where key is the datastore key the code computes
-   (hex SHA-256 of the contents).  [fifo_refines max h]: every result of the model of the code equals the
-   result of a plain FIFO (enqueue at the back when accepted, dequeue at the front, restarts and crashes
-   change nothing except that a crashed operation whose write survived counts as done), the in-memory
-   queue is exactly the pending batches in acceptance order, and the datastore holds exactly the pending
-   batches. *)
+   Histories: lists over  UOp (USubmit chain_id_ok batch) | UOp (UNext chain_id_ok) | URestart |
+   UCrash op n  (the process dies inside op after n of its datastore writes became durable, then restarts;
+   every operation has at most one write, so this is a crash at every write boundary);
+   a submitted batch is UNil | UEmpty | UB contents (equal contents = equal ids, and may recur freely). *)
 From Coq Require Import NArith List Bool.
 From Verif Require Import Model.Queue Proofs.QueueProofs.
 Import ListNotations.
@@ -19,117 +16,86 @@ Open Scope N_scope.
    batch is handed out at most once, in acceptance order, nothing else is handed out, nothing is dropped.
    (A statement about the specification, not about the code.) *)
 Theorem C10_spec_is_exactly_once_fifo : forall max h,
-  a_accepted max [] h = a_delivered max [] h ++ map snd (a_final max h).
+  s_accepted max [] h = s_delivered max [] h ++ s_final max h.
 Proof. exact spec_exactly_once0. Qed.
 Print Assumptions C10_spec_is_exactly_once_fifo.
 
-(* The property as worded — for all content-hash keyed histories the code refines the FIFO — is FALSE of
-   the faithful model.  Two independent kernel-checked witnesses (the harness reproduces both on the real
-   code): (a) two accepted batches with equal contents share one datastore record, so after the first is
-   handed out a restart loses the second; (b) a restart reloads the pending batches in key (= hash) order,
-   not in acceptance order. *)
-Theorem C10_fifo_equal_batches_refuted :
-  ~ (forall max tbl h, hash_keyedb tbl h = true -> fifo_refines max h).
-Proof. exact fifo_full_refuted_by_equal_batches. Qed.
-Print Assumptions C10_fifo_equal_batches_refuted.
+(* THE PROPERTY, at full strength: for ALL histories (any bound, any interleaving of submit / next /
+   restart / crash inside an operation, identical contents, empty submissions, foreign chain ids) every
+   result of the code's model equals the result of the plain FIFO (accept = enqueue at the back unless
+   full, next = hand out the oldest; restarts and crashes change nothing, except that a crashed operation
+   whose write survived counts as done), the in-memory queue is exactly the pending batches in acceptance
+   order, and the datastore holds exactly the pending batches in acceptance order — so that the statement
+   holds again after any further restart. *)
+Theorem C10_fifo_full : forall max h, r_fifo max h.
+Proof. exact fifo_full. Qed.
+Print Assumptions C10_fifo_full.
 
-Theorem C10_fifo_reload_order_refuted :
-  ~ (forall max tbl h, hash_keyedb tbl h = true -> fifo_refines max h).
-Proof. exact fifo_full_refuted_by_reload_order. Qed.
-Print Assumptions C10_fifo_reload_order_refuted.
-
-(* What does hold, for ALL histories (any bound, any interleaving of submit / next / restart / crash inside
-   an operation, foreign chain ids, empty submissions) that satisfy the decidable guard [fifo_guard]:
-   (1) no submission is accepted while a batch with the same key (= equal contents) is pending, and
-   (2) whenever the process restarts or crashes, the keys of the pending batches are strictly increasing in
-       acceptance order (always true with at most one pending batch).
-   MISSING: every history with two equal pending batches, and every restart with two or more pending batches
-   whose hashes are not in acceptance order (for random contents: about half of the restarts with two
-   pending batches, 5/6 with three, ...). *)
-Theorem C10_fifo_partial : forall max h,
-  fifo_guard max [] h = true -> fifo_refines max h.
-Proof. exact fifo_partial. Qed.
-Print Assumptions C10_fifo_partial.
-
-(* The same model is a durable exactly-once FIFO on every history whose keys grow with every submission —
-   the shape a repaired key scheme must have (e.g. a persisted sequence number in front of the hash).
-   For the code as it is this covers only histories whose hashes happen to be increasing. *)
-Theorem C10_fifo_monotone_keys_partial : forall max h,
-  monotone_keys h = true -> fifo_refines max h.
-Proof. exact fifo_monotone_keys. Qed.
-Print Assumptions C10_fifo_monotone_keys_partial.
-
-(* The queue bound is respected — for all histories, no guard: neither the in-memory queue nor the set of
-   durable records (what a restart reloads) ever exceeds a positive bound. *)
+(* The queue bound is respected: neither the in-memory queue nor the set of durable records (what a
+   restart reloads) ever exceeds a positive bound. *)
 Theorem C10_bound_full : forall max h,
   0 < max ->
-  N.of_nat (length (mem (final max h))) <= max /\ N.of_nat (length (db (final max h))) <= max.
-Proof. exact bound_both. Qed.
+  N.of_nat (length (mem (core (r_final max h)))) <= max /\ N.of_nat (length (db (core (r_final max h)))) <= max.
+Proof. exact r_bound_both. Qed.
 Print Assumptions C10_bound_full.
 
 (* A submission (or request) rejected because the chain id is foreign or the queue is full leaves no
-   trace: state unchanged, no datastore write — in every state, no guard. *)
-Theorem C10_rejected_no_trace_full : forall max st o r,
-  snd (step max st (IOp o)) = Some r -> (r = RInvalidId \/ r = RFull) ->
-  fst (step max st (IOp o)) = st /\ snd (step_mem max (mem st) o) = [].
-Proof. exact rejected_no_trace. Qed.
+   trace: state (queue, records, sequence counter) unchanged, no datastore write — in every state. *)
+Theorem C10_rejected_no_trace_full : forall max rst o r,
+  snd (r_step max rst (UOp o)) = Some r -> (r = RInvalidId \/ r = RFull) ->
+  fst (r_step max rst (UOp o)) = rst /\ r_wlog max rst [UOp o] = [].
+Proof. exact r_rejected_no_trace. Qed.
 Print Assumptions C10_rejected_no_trace_full.
 
 (* ... and so does an empty submission (nil batch or zero transactions) *)
-Theorem C10_empty_submission_no_trace_full : forall max st ok s, s = SNil \/ s = SEmpty ->
-  fst (step max st (IOp (OSubmit ok s))) = st /\ snd (step_mem max (mem st) (OSubmit ok s)) = [].
-Proof. exact empty_submission_no_trace. Qed.
+Theorem C10_empty_submission_no_trace_full : forall max rst ok s, s = UNil \/ s = UEmpty ->
+  fst (r_step max rst (UOp (USubmit ok s))) = rst /\ r_wlog max rst [UOp (USubmit ok s)] = [].
+Proof. exact r_empty_submission_no_trace. Qed.
 Print Assumptions C10_empty_submission_no_trace_full.
 
-(* ---- non-vacuity ------------------------------------------------------------------------------------ *)
-(* contents 1,2,3 with keys 30,10,20 (hash order differs from id order) *)
-Definition B1 := SB 30 1.
-Definition B2 := SB 10 2.
-Definition B3 := SB 20 3.
-Definition ex_tbl : list (batch * key) := [(1, 30); (2, 10); (3, 20)].
+(* ---- non-vacuity: a concrete history -------------------------------------------------------------------- *)
+(* bound 3: identical contents pending together (7, 7), a restart with three pending, a full rejection, a
+   foreign chain id, empty submissions, a crash that loses a submission, one that keeps it, a crash that
+   loses a delete, one after the delete, everything handed out, the counter restarting from an empty store *)
+Definition ex_history : list uitem :=
+  [ UOp (USubmit true (UB 7)); UOp (USubmit true (UB 7)); UOp (USubmit false (UB 9)); UOp (USubmit true UEmpty);
+    UOp (USubmit true (UB 5)); UOp (USubmit true (UB 9)); URestart; UOp (UNext true); UOp (USubmit true UNil);
+    UCrash (UNext true) 0; UOp (UNext true); UCrash (USubmit true (UB 7)) 0; UCrash (USubmit true (UB 4)) 1;
+    UCrash (UNext true) 1; UOp (UNext true); UOp (UNext false); UOp (UNext true); URestart;
+    UOp (USubmit true (UB 7)); URestart; UOp (UNext true) ].
 
-(* inside the guard: bound 2, a full rejection, a foreign chain id, empty submissions, a restart with two
-   pending batches that happen to be in hash order (2 then 3), the same contents accepted again after it
-   was handed out, a crash that loses a submission, a crash that loses a delete, a crash after a delete *)
-Definition ex_guarded : list item :=
-  [ IOp (OSubmit true B2); IOp (OSubmit false B1); IOp (OSubmit true SEmpty); IOp (OSubmit true B3);
-    IOp (OSubmit true B1); IRestart; IOp (ONext true); IOp (OSubmit true SNil); ICrash (ONext true) 0;
-    IOp (ONext true); IOp (ONext true); IOp (ONext false); IOp (OSubmit true B2); ICrash (OSubmit true B3) 0;
-    ICrash (ONext true) 1; IOp (ONext true); IOp (OSubmit true B1); IRestart; IOp (ONext true) ].
-
-Example ex_guarded_meets_hypotheses :
-  hash_keyedb ex_tbl ex_guarded = true /\ fifo_guard 2 [] ex_guarded = true.
-Proof. vm_compute. split; reflexivity. Qed.
-
-Example ex_guarded_outputs :
-  outputs 2 ex_guarded =
-  [ Some ROk; Some RInvalidId; Some ROk; Some ROk; Some RFull; None; Some (RBatch 2); Some ROk; None;
-    Some (RBatch 3); Some REmpty; Some RInvalidId; Some ROk; None; None; Some REmpty; Some ROk; None;
-    Some (RBatch 1) ].
+Example ex_outputs :
+  r_outputs 3 ex_history =
+  [ Some ROk; Some ROk; Some RInvalidId; Some ROk; Some ROk; Some RFull; None; Some (RBatch 7); Some ROk;
+    None; Some (RBatch 7); None; None; None; Some (RBatch 4); Some RInvalidId; Some REmpty; None;
+    Some ROk; None; Some (RBatch 7) ].
 Proof. vm_compute. reflexivity. Qed.
 
-(* a history with monotone keys: three pending over a restart and a crash, equal contents under different keys *)
-Definition ex_mono : list item :=
-  [ IOp (OSubmit true (SB 1 7)); IOp (OSubmit true (SB 2 7)); IOp (OSubmit true (SB 3 5)); IRestart;
-    IOp (ONext true); ICrash (OSubmit true (SB 4 7)) 1; IOp (ONext true); IOp (ONext true); IOp (ONext true) ].
-Example ex_mono_meets_hypothesis : monotone_keys ex_mono = true.
-Proof. vm_compute. reflexivity. Qed.
-Example ex_mono_outputs :
-  outputs 0 ex_mono =
-  [ Some ROk; Some ROk; Some ROk; None; Some (RBatch 7); None; Some (RBatch 7); Some (RBatch 5); Some (RBatch 7) ].
-Proof. vm_compute. reflexivity. Qed.
-
-(* the two refutation witnesses are content-hash keyed, lie outside the guard, and show the loss / the
-   reordering in the model's results (specification: RBatch 1, RBatch 1 and RBatch 1 respectively) *)
-Example witnesses_outside_guard :
-  hash_keyedb w_tbl w_equal = true /\ hash_keyedb w_tbl w_order = true /\
-  fifo_guard 0 [] w_equal = false /\ fifo_guard 0 [] w_order = false.
+Example ex_accepted_delivered :
+  s_accepted 3 [] ex_history = [7; 7; 5; 4; 7] /\ s_delivered 3 [] ex_history = [7; 7; 5; 4; 7] /\
+  s_final 3 ex_history = [].
 Proof. vm_compute. repeat split; reflexivity. Qed.
-Example witness_equal_outputs :
+
+(* ---- before the repair ------------------------------------------------------------------------------------ *)
+(* With content-hash keys (the key a function of the contents; contents 1, 2 with keys 20, 10) the same
+   queue core did NOT refine the FIFO: equal pending batches shared one record and one was lost over a
+   restart; a restart reloaded in hash order.  Both were reproduced on the real code before the fix. *)
+Example before_the_repair_equal_batches :
+  hash_keyedb w_tbl w_equal = true /\
   outputs 0 w_equal = [Some ROk; Some ROk; Some (RBatch 1); None; Some REmpty] /\
   a_outputs 0 w_equal = [Some ROk; Some ROk; Some (RBatch 1); None; Some (RBatch 1)].
-Proof. vm_compute. split; reflexivity. Qed.
-Example witness_order_outputs :
+Proof. vm_compute. repeat split; reflexivity. Qed.
+
+Example before_the_repair_reload_order :
+  hash_keyedb w_tbl w_order = true /\
   outputs 0 w_order = [Some ROk; Some ROk; None; Some (RBatch 2)] /\
   a_outputs 0 w_order = [Some ROk; Some ROk; None; Some (RBatch 1)].
+Proof. vm_compute. repeat split; reflexivity. Qed.
+
+(* the same two histories on the repaired code *)
+Example after_the_repair :
+  r_outputs 0 [UOp (USubmit true (UB 1)); UOp (USubmit true (UB 1)); UOp (UNext true); URestart; UOp (UNext true)]
+    = [Some ROk; Some ROk; Some (RBatch 1); None; Some (RBatch 1)] /\
+  r_outputs 0 [UOp (USubmit true (UB 1)); UOp (USubmit true (UB 2)); URestart; UOp (UNext true)]
+    = [Some ROk; Some ROk; None; Some (RBatch 1)].
 Proof. vm_compute. split; reflexivity. Qed.
